@@ -983,6 +983,12 @@ func (s *Service) runWith(wid string, cb func()) {
 	verifPoint("runWith.checked", wid)
 
 	s.mu.Lock()
+	// A nil workqueue signals that the service is closing. No new work may be
+	// queued, or the workers would never see the signal to stop.
+	if s.workqueue == nil {
+		s.mu.Unlock()
+		return
+	}
 	// Get current work queue for the resource
 	var w *work
 	var ok bool
